@@ -5,8 +5,26 @@ Rec == ndJsonDeserialize(IOEnv.TRACE)
 VARIABLE l
 P(x) == <<x[1], x[2]>>
 V(tag, d) == {<<"C01", tag, d>>}
+BigTags(e) ==
+  IF e.r = "panic" THEN V("BigPanic", e.ev \o " at the far end of a huge file panicked: " \o e.msg)
+  ELSE IF e.ev = "BigRead" THEN
+    LET w == ReadAt(P(e.size), P(e.off0), e.n) IN
+      (IF ~e.ok THEN V("BigRead", "a read inside a huge file failed") ELSE {})
+      \cup (IF e.ok /\ (Count(e.cnt) # w.cnt \/ P(e.off1) # w.off \/ e.eof # w.eof \/ P(e.len1) # P(e.size))
+            THEN V("BigRead", "count, offset, length or end-of-file flag after a read at the far end of a huge file differ from the model") ELSE {})
+  ELSE
+    LET w == WriteAt(P(e.size), P(e.off0), e.n) IN
+      \* whatever is reported as written has been written, all of it
+      (IF e.ok /\ (~WriteFits(P(e.off0), e.n) \/ e.cnt # e.n \/ P(e.off1) # w.off \/ P(e.len1) # w.len)
+       THEN V("BigWrite", "a write that does not fit below 2^32 - 1 bytes (or is not stored completely) is reported as done") ELSE {})
+      \cup (IF ~e.ok /\ WriteFits(P(e.off0), e.n) THEN V("BigWrite", "a write that fits (free clusters, below 2^32 - 1 bytes) was refused") ELSE {})
+      \* a refused write loses nothing: the file is at least as long as before, the offset inside it
+      \cup (IF ~e.ok /\ (~Le(P(e.size), P(e.len1)) \/ ~Le(P(e.off1), P(e.len1))) THEN V("BigWrite", "a refused write shortened the file or left the offset outside it") ELSE {})
+      \cup (IF e.closed /\ P(e.disk) # P(e.len1) THEN V("BigWrite", "the directory entry after close does not hold the length the file reported") ELSE {})
+      \cup (IF ~e.closed THEN V("BigWrite", "closing the file failed") ELSE {})
 Tags(e) ==
-  IF e.r = "panic" THEN V("SeekPanic", "seek_" \o e.kind \o " panicked: " \o e.msg)
+  IF e.ev # "Seek" THEN BigTags(e)
+  ELSE IF e.r = "panic" THEN V("SeekPanic", "seek_" \o e.kind \o " panicked: " \o e.msg)
   ELSE IF P(e.len) # P(e.size) THEN V("Length", "the reported length is not the size field of the entry")
   ELSE LET w == CASE e.kind = "start" -> SeekStart(P(e.size), P(e.off0), P(e.arg))
                   [] e.kind = "end" -> SeekEnd(P(e.size), P(e.off0), P(e.arg))
